@@ -113,13 +113,13 @@ theorem sL_step_assign (f : Sem) (j : Job) (cl : Cluster) (s s' : Sys) (a : Asg)
     exact sL_congr hF rfl (fun _ _ h => h) rfl rfl rfl rfl rfl rfl rfl rfl (fun _ _ => Iff.rfl)
   · rename_i c2 prep has
     have hctl : s'.ctl = c2 := by cases hs; rfl
-    have henv : s'.env = applyCmds j cl s.env (actCmds a prep) := by cases hs; rfl
+    have henv : s'.env = applyCmds j cl s.env (actCmds j a prep) := by cases hs; rfl
     have htodo : s'.todo = s.todo ++ [(a, prep)] := by cases hs; rfl
     have hinb : s'.inbox = s.inbox := by cases hs; rfl
     clear hs
     obtain ⟨ho, hd0, hd', hcomp, hidle, hi', hon', hgpu⟩ := once_assignOne j cl s.ctl c2 a prep hA.h1.once has
     obtain ⟨fa, fd, ftd, ftr, fc⟩ := sL_assignOne_frames j cl s.ctl c2 a prep has
-    obtain ⟨ep, er⟩ := sL_applyCmds_frame j cl (actCmds a prep) s.env
+    obtain ⟨ep, er⟩ := sL_applyCmds_frame j cl (actCmds j a prep) s.env
     have hfl : ∀ w t, s'.inFlight w t ↔ (s.inFlight w t ∨ (w, t) = (a.worker, a.task)) := by
       intro w t
       simp only [Sys.inFlight, Sys.todoPairs, hctl, hon', htodo, List.map_append, List.map_cons, List.map_nil,
@@ -271,10 +271,11 @@ theorem sL_envStep_io (f : Sem) (j : Job) (e e' : Env) (i : Nat) (h : envStep f 
       · cases h
         exact ⟨rfl, fun ev hm => List.mem_append.mpr (Or.inl hm)⟩
 
-theorem sL_step_env (f : Sem) (j : Job) (cl : Cluster) (s s' : Sys) (es : EnvStep) (_hA : InvAll f j cl s)
+theorem sL_step_env (f : Sem) (j : Job) (cl : Cluster) (s s' : Sys) (es : EnvStep) (hA : InvAll f j cl s)
     (hF : InvLive j cl s) (hs : step f j cl s (.env es) = some s') : InvLive j cl s' := by
   simp only [step] at hs
   split at hs; · cases hs
+  rw [envStepP_eq f j s.env es hA.h1.no_trim] at hs
   cases he : envStep f j s.env es with
   | none => simp [he] at hs
   | some e' =>
@@ -577,7 +578,7 @@ theorem sL_x_step (f : Sem) (j : Job) (cl : Cluster) (s s' : Sys) (st : Step) (h
   | env es =>
     simp only [step] at hs
     split at hs; · cases hs
-    cases he : envStep f j s.env es with
+    cases he : envStepP f j s.env es with
     | none => simp [he] at hs
     | some e' =>
       simp only [he, Option.map_some, Option.some.injEq] at hs
